@@ -43,8 +43,13 @@ def _rnd(x, nd=6):
 # ------------------------------------------------------------------------- tasks
 def gen_bounds(r: random.Random, scale: float, shape: str | None = None):
     shape = shape or r.choice(["sym", "sym", "sym", "asym", "asym", "zero_lo", "zero_lo", "zero_hi", "zero_hi", "neg", "neg",
-                               "pos", "pos", "far_narrow"])
+                               "pos", "pos", "far_narrow", "computed"])
     s = scale
+    if shape == "computed":
+        # bounds that are results of a computation (1/3, pi/3, sqrt(2)...): no short decimal representation
+        c = [1.0 / 3.0, 2.0 / 3.0, 3.141592653589793 / 3.0, 2.0 ** 0.5, 0.1 + 0.2, 2.718281828459045 / 7.0]
+        lo = s * r.choice(c) * r.choice([1.0, -1.0, -2.0])
+        return lo, lo + s * r.choice(c) * r.choice([1.0, 3.0])
     if shape == "far_narrow":
         # a narrow box far from the origin (timestamps, frequencies): offset ~ 1e7..1e9 widths
         off = r.choice([1e7, 1e8, 1e9]) * s * r.choice([1.0, -1.0])
@@ -370,6 +375,10 @@ def extreme_candidates(optimizer, validate):
             except Exception:
                 continue
             out.append((k, c))
+    # structural candidates first (reordered / degenerate lists, flags, counts), scalar magnitudes after them: a batch
+    # that can only afford a prefix of the list covers the former in every run
+    out.sort(key=lambda kc: (0 if isinstance(kc[1], list) else 1 if isinstance(kc[1], bool) else
+                             2 if isinstance(kc[1], int) else 3))
     _EXTREME[optimizer] = out
     return out
 
